@@ -58,7 +58,30 @@ Definition is_mut_other (m : mutk) : bool := match m with MutOther => true | _ =
 Definition refused (copied : list ckind) (m : mutk) : bool :=
   match m with Immut => false | MutC k => negb (existsb (ckind_eqb k) copied) | MutOther => true end.
 
+(* ---------- where config_for takes a field's type from: the arms of its if/elif chain, in order ---------- *)
+Inductive tsrc := SrcParam | SrcClass | SrcInfer.     (* the parameter's annotation / get_type_hints(cls)[name] / the default *)
+Definition src_applicable (annotated has_hint has_default : bool) (t : tsrc) : bool :=
+  match t with SrcParam => annotated | SrcClass => has_hint | SrcInfer => has_default end.
+(* None: no arm applies, the parameter is skipped ("Don't know what the type of field is") *)
+Definition type_source (chain : list tsrc) (annotated has_hint has_default : bool) : option tsrc :=
+  find (src_applicable annotated has_hint has_default) chain.
+(* does the field end up with the type the signature asks for (the parameter's own annotation; for an un-annotated parameter
+   the class-level hint)?  hint_same: the class-level hint happens to be the parameter's annotation *)
+Definition field_type_ok (chain : list tsrc) (annotated has_hint hint_same has_default : bool) : bool :=
+  match type_source chain annotated has_hint has_default with
+  | Some SrcParam => true
+  | Some SrcClass => if annotated then hint_same else true
+  | Some SrcInfer => negb annotated && negb has_hint
+  | None => false
+  end.
+
 Record facts := mkfacts {
+  f_field_pos_key : string;         (* helpers.field: _metadata[<key>] = positional   ("" = not stored) *)
+  f_main_pos_key : string;          (* main: field.metadata.get(<key>, False) decides positional / keyword *)
+  f_main_parsed_pos_first : bool;   (* positionals = ( *args, *other_args ): parsed positionals before run-time ones *)
+  f_cf_type_chain : list tsrc;      (* config_for: precedence of the sources of a field's type *)
+  f_cf_str_single : bool;           (* config_for: a str ignore_args is ONE name (otherwise tuple(str) = its characters) *)
+  f_cf_target_set : bool;           (* config_for: config_class._target_ = cls *)
   f_main_copied : list ckind;       (* main: isinstance(parameter.default, (list, dict, set)) -> deepcopy factory *)
   f_cf_copied : list ckind;         (* config_for: the same for the optional-field arm *)
   f_infer : infer_rule;             (* head of infer_type_annotation_from_default *)
@@ -95,8 +118,15 @@ Fixpoint ordered {A} (d : A -> bool) (seen : bool) (l : list A) : bool :=
 
 (* how ignore_args was written at the call site of config_for *)
 Inductive ignore_form := IgAbsent | IgStr (s : string) | IgTuple (l : list string) | IgList (l : list string).
-Definition ignore_names (i : ignore_form) : list string :=
-  match i with IgAbsent => [] | IgStr s => [s] | IgTuple l | IgList l => l end.
+Fixpoint chars_of (s : string) : list string :=
+  match s with EmptyString => [] | String a r => String a "" :: chars_of r end.
+(* str_single = the regenerated fact f_cf_str_single *)
+Definition ignore_names (str_single : bool) (i : ignore_form) : list string :=
+  match i with
+  | IgAbsent => []
+  | IgStr s => if str_single then [s] else chars_of s
+  | IgTuple l | IgList l => l
+  end.
 Definition list_eqb' {A} (e : A -> A -> bool) : list A -> list A -> bool :=
   fix go l1 l2 := match l1, l2 with [] , [] => true | x :: r1, y :: r2 => e x y && go r1 r2 | _, _ => false end.
 Definition ignore_eqb (a b : ignore_form) : bool :=
@@ -194,7 +224,8 @@ Section V.
   Definition cf_refuses (F : facts) (p : param) : bool := refused (f_cf_copied F) (p_mut p).
   Definition main_field (F : facts) (p : param) : fld :=
     mkfld (p_name p) (p_ann p) (p_default p) (main_refuses F p)
-          (existsb (kind_eqb (p_kind p)) (f_main_pos_kinds F))
+          (* positional=<kind test> is stored by helpers.field under one metadata key and read back by main under another *)
+          (existsb (kind_eqb (p_kind p)) (f_main_pos_kinds F) && String.eqb (f_field_pos_key F) (f_main_pos_key F))
           (custom_of F (f_main_kwargs F)).
   Definition main_fields (F : facts) (s : sig) : list fld := map (main_field F) (main_order F s).
 
@@ -203,7 +234,7 @@ Section V.
     let fs := main_fields F s in
     let args := map (fun f => vals (fl_name f)) (filter fl_pos fs) in
     let kws := map (fun f => (fl_name f, vals (fl_name f))) (filter (fun f => negb (fl_pos f)) fs) in
-    mkcall (args ++ extra_pos)
+    mkcall (if f_main_parsed_pos_first F then args ++ extra_pos else extra_pos ++ args)%list
            (* function called with ChainMap(a, b) unpacked: keys of b first, a shadows b *)
            (if f_main_parsed_wins F then dict_update extra_kw kws else dict_update kws extra_kw).
 
@@ -271,7 +302,7 @@ Section V.
     match t with [] => None | (r', c) :: rest => if req_eqb r r' then Some c else find_req rest r end.
 
   Definition cf_request (F : facts) (s : sig) (st : cstate) (r : cfreq) : cstate * res nat :=
-    let build := setup F (cf_fields F (ignore_names (rq_ignore r)) (rq_over r) s) in
+    let build := setup F (cf_fields F (ignore_names (f_cf_str_single F) (rq_ignore r)) (rq_over r) s) in
     if f_cf_cached F && rq_hashable r then
       match find_req (fst st) r with
       | Some c => (st, Ok c)
@@ -301,7 +332,7 @@ Section V.
     | (k', r', c) :: rest => if Nat.eqb k k' && req_eqb r r' then Some c else pfind rest k r
     end.
   Definition p_request (F : facts) (sigs : nat -> sig) (st : pstate) (k : nat) (r : cfreq) : pstate * res nat :=
-    let build := setup F (cf_fields F (ignore_names (rq_ignore r)) (rq_over r) (sigs k)) in
+    let build := setup F (cf_fields F (ignore_names (f_cf_str_single F) (rq_ignore r)) (rq_over r) (sigs k)) in
     let fresh := List.length (snd st) in
     if f_cf_cached F && rq_hashable r then
       match pfind (fst st) k r with
